@@ -303,6 +303,28 @@ class Fn:
                 return False
             x = p
 
+    def rpo(self):
+        """{block: index in a reverse post-order of the CFG from the entry}: a program order that survives renumbering
+        (inlined blocks are appended behind the caller's)"""
+        if getattr(self, "_rpo", None) is None:
+            order, seen = [], set()
+            stack = [(0, iter([s for s, _ in self.succ(0)]))]
+            seen.add(0)
+            while stack:
+                n, it = stack[-1]
+                adv = False
+                for m in it:
+                    if m not in seen:
+                        seen.add(m)
+                        stack.append((m, iter([s for s, _ in self.succ(m)])))
+                        adv = True
+                        break
+                if not adv:
+                    order.append(n)
+                    stack.pop()
+            self._rpo = {b: i for i, b in enumerate(reversed(order))}
+        return self._rpo
+
     def dom_chain(self, b):
         """b, idom(b), ... , entry"""
         idom = self.idom()
@@ -701,6 +723,15 @@ class Program:
         k = (fn.key, depth, id(accept))
         if k not in cache:
             cache[k] = _inline.inline(self, fn, depth, accept)
+        return cache[k]
+
+    def awaited_inlined(self, fn, depth=1):
+        """a coroutine body with the bodies of the local async fns it awaits spliced in (rules/lib/inline.py); cached"""
+        from . import inline as _inline
+        cache = self.__dict__.setdefault("_ainlined", {})
+        k = (fn.key, depth)
+        if k not in cache:
+            cache[k] = _inline.inline_async(self, fn, depth)
         return cache[k]
 
     def callers(self):
